@@ -4,6 +4,9 @@ import (
 	"fmt"
 	"strings"
 
+	"github.com/trustbloc/sidetree-core-go/pkg/api/operation"
+	"github.com/trustbloc/sidetree-core-go/pkg/api/protocol"
+
 	"verifharness/hx"
 	"verifharness/ref"
 )
@@ -11,7 +14,7 @@ import (
 func init() { register("C12", "exploration", checkC12) }
 
 func checkC12(c *hx.Ctx) {
-	c.Rule("(a) intake: update and recover requests for every pairing of revealed key K_i and next commitment c_h(K_j) (4 keys x 4 keys x reveal hash {sha2-256, sha2-512} x commitment hash {sha2-256, sha2-512} x protocols allowing [256], [512], [256,512], [512,256]) and creates/recovers with equal/unequal update and recovery commitments - exhaustive; keys carrying nonces: the same key material seen under one nonce, then revealed and re-committed under another nonce in the same process; accepted iff the next commitment is not a commitment of the revealed key (under any enabled algorithm) and update != recovery commitment; (b) resolution: commitment cycles of length 1-5 (every rotation, every anchoring order of up to 5 operations, for the update and the recovery chain) (also with a legitimate later competitor of the cycle-closing operation, and with a protocol upgrade in the middle of the chain) under the online trace checker T3 (no commitment consumed twice, no successor already consumed) with step budget, compared with the reference model; non-trivial = pairing i==j or a history containing a full cycle")
+	c.Rule("(a) intake: update and recover requests for every pairing of revealed key K_i and next commitment c_h(K_j) (4 keys x 4 keys x reveal hash {sha2-256, sha2-512} x commitment hash {sha2-256, sha2-512} x protocols allowing [256], [512], [256,512], [512,256]) and creates/recovers with equal/unequal update and recovery commitments - exhaustive; keys carrying nonces: the same key material seen under one nonce, then revealed and re-committed under another nonce in the same process; accepted iff the next commitment is not a commitment of the revealed key (under any enabled algorithm) and update != recovery commitment; every request intake must refuse is also handed to the batch writer's REAL operation handler (the last gate before anchoring), which must not write batch files for it; (b) resolution: commitment cycles of length 1-5 (every rotation, every anchoring order of up to 5 operations, for the update and the recovery chain) (also with a legitimate later competitor of the cycle-closing operation, with a protocol upgrade in the middle of the chain, and recovery cycles built from / closed by recovers that carry no delta) under the online trace checker T3 (no commitment consumed twice, no successor already consumed) with step budget, compared with the reference model; non-trivial = pairing i==j or a history containing a full cycle")
 	c.Set("exhaustive", true)
 	rng := c.Rng("keys")
 	typeSets := [][]string{{"P-256", "Ed25519", "secp256k1", "P-384"}}
@@ -77,6 +80,12 @@ func checkC12(c *hx.Ctx) {
 				return
 			}
 			if mustReject {
+				// the last gate before anchoring: the batch writer's operation handler refuses to write batch files for it
+				if !writerGateRefuses(p, j.op, u.Suffix, op.Request) {
+					c.Violation("C12 the batch writer's operation handler wrote batch files for a request that re-commits to the key it reveals: "+desc, map[string]interface{}{"request": string(op.Request), "protocol": p})
+					return
+				}
+				c.Count("self_commit_refused_by_writer_gate")
 				c.Count("self_commit_rejected:" + j.op)
 				c.Distinct(desc)
 			} else {
@@ -113,6 +122,10 @@ func checkC12(c *hx.Ctx) {
 							map[string]interface{}{"request": string(rec.Request), "protocol": p, "error": fmt.Sprint(err)})
 					}
 					if i == j {
+						if !writerGateRefuses(p, "create", cs.Suffix(), ref.MustJCS(cs.Request())) || !writerGateRefuses(p, "recover", cs.Suffix(), rec.Request) {
+							c.Violation(fmt.Sprintf("C12 the batch writer's operation handler wrote batch files for a create / recover whose update and recovery commitments are both c(%s)", keys[i].Name),
+								map[string]interface{}{"create": string(ref.MustJCS(cs.Request())), "recover": string(rec.Request), "protocol": p})
+						}
 						c.Count("equal_commitments_rejected")
 						c.Distinct(fmt.Sprintf("equal|%v|%s|%s", algs, keys[i].Name, keys[i].Type))
 					}
@@ -226,6 +239,7 @@ func checkC12(c *hx.Ctx) {
 		k      int
 		kind   string
 		alt    *ref.Op // a legitimate competitor of the operation that closes the cycle (same revealed key, fresh successor)
+		opsND  []*ref.Op // recovery chains: the same cycle built from recovers that carry no delta (legal once anchored)
 	}
 	var cycles []cyc
 	cr := c.Rng("cycles")
@@ -276,7 +290,13 @@ func checkC12(c *hx.Ctx) {
 						ops = append(ops, u.MkSigned("upd:back-to-start", "update", ring[k-1], "", start.Commitment(u.Code), nil, SignedOpts{DeltaStatus: ref.DeltaFails}))
 					}
 					alt := mk(kind[:3]+":alt-to-fresh", ring[k-1], newKey("fresh"), 77)
-					cycles = append(cycles, cyc{u, prefix, ops, k, kind, alt})
+					var opsND []*ref.Op
+					if kind == "recover" {
+						for i := 0; i < k; i++ {
+							opsND = append(opsND, u.MkSigned(fmt.Sprintf("rec-no-delta:%d->%d", i, (i+1)%k), "recover", ring[i], ring[(i+1)%k].Commitment(u.Code), newKey("uk").Commitment(u.Code), nil, SignedOpts{OmitDelta: true}))
+						}
+					}
+					cycles = append(cycles, cyc{u, prefix, ops, k, kind, alt, opsND})
 				}
 			}
 		}
@@ -290,9 +310,12 @@ func checkC12(c *hx.Ctx) {
 		hx.Parallel(len(orders), 16, func(oi int) {
 			ord := orders[oi]
 			// variants: 0 plain; 1 every op replayed later; 2/3 the last one / two operations of the anchoring order are unpublished
-			for variant := 0; variant < 6; variant++ {
+			for variant := 0; variant < 8; variant++ {
 				if c.Violations() > 8 {
 					return
+				}
+				if variant >= 6 && cy.kind != "recover" {
+					continue
 				}
 				if (variant == 2 || variant == 3) && cy.kind == "recover" {
 					continue // unpublished full operations followed by published updates are outside the statements (Appendix B)
@@ -310,7 +333,12 @@ func checkC12(c *hx.Ctx) {
 					if (variant == 2 || variant == 3) && pos >= len(ord)-(variant-1) {
 						refID, t = "", uint64(5000+pos) // unpublished
 					}
-					H = append(H, Place(cy.ops[idx], t, uint64(len(ord)-pos), refID, p.GenesisTime))
+					o := cy.ops[idx]
+					// 6: every recover of the cycle carries no delta; 7: only the one that closes the cycle
+					if variant == 6 || (variant == 7 && idx == cy.k-1) {
+						o = cy.opsND[idx]
+					}
+					H = append(H, Place(o, t, uint64(len(ord)-pos), refID, p.GenesisTime))
 				}
 				if variant == 4 {
 					// a legitimate competitor of the cycle-closing operation, anchored after it: it wins, the closing one never applies
@@ -373,6 +401,9 @@ func checkC12(c *hx.Ctx) {
 				if variant == 5 {
 					c.Count("cycles_spanning_a_protocol_upgrade")
 				}
+				if variant >= 6 {
+					c.Count("recovery_cycles_closed_by_recovers_without_delta")
+				}
 				c.CountN("applied_cycle_ops", len(st.Applied)-1)
 				c.Distinct(histString(H))
 			}
@@ -383,6 +414,8 @@ func checkC12(c *hx.Ctx) {
 	c.Floor("cycles_closed_by_unpublished_operations", 50)
 	c.Floor("cycles_with_a_legitimate_competitor_of_the_closing_operation", 50)
 	c.Floor("cycles_spanning_a_protocol_upgrade", 50)
+	c.Floor("self_commit_refused_by_writer_gate", 30)
+	c.Floor("recovery_cycles_closed_by_recovers_without_delta", 50)
 	c.Floor("self_commit_rejected:update", 16)
 	c.Floor("self_commit_with_nonce_rejected:update", 5)
 	c.Floor("self_commit_with_alternative_spelling_rejected:update", 3)
@@ -392,4 +425,12 @@ func checkC12(c *hx.Ctx) {
 	c.Floor("equal_commitments_rejected", 4)
 	c.Floor("cycle_len_2_update", 2)
 	c.Floor("cycle_len_5_recover", 100)
+}
+
+// writerGateRefuses hands one queued request to the real operation handler (what the batch writer does when it cuts a batch)
+// and reports whether the handler refused to produce batch files for it.
+func writerGateRefuses(p protocol.Protocol, typ, suffix string, req []byte) bool {
+	v := hx.NewVersion(p, hx.VersionOpts{CAS: hx.NewMemCAS()})
+	info, err := v.Handler.PrepareTxnFiles([]*operation.QueuedOperation{{Type: operation.Type(typ), OperationRequest: req, UniqueSuffix: suffix, Namespace: hx.Namespace}})
+	return err != nil || info == nil || info.AnchorString == ""
 }
